@@ -299,7 +299,7 @@ def run(ctx, chk, tier="quick"):
             chk.ob("C02.O2", ok, where_of(fsm, t),
                    "replace current partner when pref(new) %s pref(current), pref = %s|start offset|  => keeps the %s offset"
                    % (">" if d > 0 else "<", "-" if (psign or 0) < 0 else "+", "smaller" if ok else "LARGER"),
-                   "a rise keeps the proposer whose start is closer", key="find_stable_matching|acceptor",
+                   "a rise keeps the proposer whose start is closer", key="find_stable_matching|acceptor", scope=[fsm, ctx.func("classify.disambiguate_matching")],
                    why="otherwise a rise and a closer storm form a blocking pair")
             # ---- O3 ordering on the displacement branch
             body = cmp_.body if replaces else cmp_.orelse
